@@ -31,6 +31,7 @@ import PV.Driver.AlgoTableOps
 import PV.Driver.CoeffTableOps
 import PV.Driver.RewriteTableOps
 import PV.Driver.C18TableOps
+import PV.Driver.StrTableOps
 /-
   Driver operations: one request S-expression in, one reply S-expression out.
 -/
@@ -234,6 +235,7 @@ def handlers : List (Sexp → Option Sexp) :=
    , handleCoeffTable
    , handleRewriteTable
    , handleC18Table
+   , handleStrTable
    -- HANDLERS
   ]
 
